@@ -36,6 +36,9 @@ type Case struct {
 	Forms    []string         `json:"forms"`
 	Perturbs []Perturb        `json:"perturbs"`
 	Streams  int              `json:"streams"`
+	// Prios: owner i gets priority 10*(Prios[i]+1); nil = ascending (the order in which the intents are written is
+	// always the owner order, so a permutation decouples write order from precedence)
+	Prios []int `json:"prios,omitempty"`
 }
 
 func gen(t *rapid.T) *Case {
@@ -45,6 +48,7 @@ func gen(t *rapid.T) *Case {
 		c.Intents = append(c.Intents, vlib.GenLeafSels(t, uni, 1, 6, "int"))
 		c.Forms = append(c.Forms, rapid.SampledFrom([]string{"typed", "string", "json"}).Draw(t, "form"))
 	}
+	c.Prios = rapid.Permutation([]int{0, 1, 2}).Draw(t, "prios")[:n]
 	np := rapid.IntRange(0, 6).Draw(t, "nperturb")
 	for i := 0; i < np; i++ {
 		c.Perturbs = append(c.Perturbs, Perturb{Leaf: vlib.GenLeafSels(t, uni, 1, 1, "pl")[0], Kind: rapid.SampledFrom([]string{"change", "delete", "extra", "extra", "respell"}).Draw(t, "pk")})
@@ -54,11 +58,18 @@ func gen(t *rapid.T) *Case {
 
 var prop = vlib.Prop[*Case]{
 	ID: "C15",
-	Rule: "case = intended store built by transactions of 1..3 owners (overlapping paths, every leaf type incl. decimal64, uint64, identityref, union, binary, leaf-lists, a non-alphabetical 2-key list; typed / string / JSON input so that stored and running representations can differ) + perturbations of the running store (changed, deleted, extra unhandled paths) + 1..2 deviation streams; one cycle is triggered through hook H3; " +
+	Rule: "case = intended store built by transactions of 1..3 owners written in an order independent of their precedence (overlapping paths, every leaf type incl. decimal64, uint64, identityref, union, binary, leaf-lists, a non-alphabetical 2-key list; typed / string / JSON input so that stored and running representations can differ) + perturbations of the running store (changed, deleted, extra unhandled paths) + 1..2 deviation streams; one cycle is triggered through hook H3; " +
 		"oracle = per stream: first message START, last END, each once; in between exactly the multiset derived from the two store dumps: UNHANDLED(path, current) for a running path no intent defines, NOT_APPLIED(ruling intent, path, expected = ruling value, current = running value or absent) iff running differs from or lacks the ruling value, OVERRULED(lower intent, path, its value, ruling value) iff its value differs from the ruling one, nothing where running and all intents agree; values compared by denotation; " +
 		"non-trivial = the state has paths in at least three of the four categories (agreeing, NOT_APPLIED, OVERRULED, UNHANDLED); distinct = distinct case JSON",
 	Gen:  gen,
 	Exec: Exec,
+}
+
+func prioIx(c *Case, i int) int {
+	if i < len(c.Prios) {
+		return c.Prios[i]
+	}
+	return i
 }
 
 func harnessErr(err error) {
@@ -104,7 +115,7 @@ func Exec(c *Case) (nontrivial bool, labels []string, fail *vlib.Failure) {
 			p, v := uni.Resolve(sel, palette)
 			conf[p.Canon()] = v
 		}
-		ri := vlib.ResolvedIntent{Name: fmt.Sprintf("own%d", i), Kind: "set", Prio: int32(10 * (i + 1)), Explicit: conf, Form: c.Forms[i%len(c.Forms)]}
+		ri := vlib.ResolvedIntent{Name: fmt.Sprintf("own%d", i), Kind: "set", Prio: int32(10 * (prioIx(c, i) + 1)), Explicit: conf, Form: c.Forms[i%len(c.Forms)]}
 		r, err := vlib.BuildIntentRequest(ri)
 		if err != nil {
 			harnessErr(err)
